@@ -65,8 +65,21 @@ def mg_functions(facts, cls_re):
     for f in facts.functions:
         if f.tk == "pattern" or not re.search(cls_re, f.cls):
             continue
-        out.setdefault(f.cls, {})[f.name] = f
+        cur = out.setdefault(f.cls, {}).get(f.name)
+        # overloads of a modelled helper: the modelled one takes the level as an index (a sibling taking the LevelInfo object,
+        # or with another arity, is inlined into it / treated as the same event)
+        if cur is None or (f.name in mgmodel.HELPERS and helper_rank(f) < helper_rank(cur)):
+            out[f.cls][f.name] = f
     return out
+
+
+def helper_rank(f):
+    """0 for the modelled signature of a helper (arity as documented, level given as an index), larger otherwise"""
+    ar = mgmodel.HELPER_ARITY.get(f.name)
+    r = 0 if ar is None or len(f.params) == ar else 2
+    if f.params and "LevelInfo" in f.type(f.params[0]["t"]):
+        r += 1
+    return r
 
 
 def short_cls(cls):
@@ -882,6 +895,13 @@ def check_roles(ck, view, inst_prefix, events):
             ck.incomplete("E1.level-roles", "%s: %s at line %s is outside the operation table" % (inst_prefix, ev["why"], ev["n"].get("l")))
             continue
         ok, desc, exp = role_check(view, ev)
+        if ok and view.name in ("_apply_smooth_def", "_apply_smooth_peak") and view.fn.params:
+            # a helper that works on the level given by its first parameter touches objects of that level only
+            own = ("v", view.fn.params[0]["d"], 0)
+            lv_ = [o[1] for o in (ev.get(k_) for k_ in LEVEL_OPERANDS) if isinstance(o, tuple) and len(o) >= 2 and isinstance(o[1], tuple)]
+            if any(l_ != own for l_ in lv_):
+                ok, exp = False, "objects of level %s in a helper that works on the level `%s` it is given" % (
+                    ", ".join(sorted({view.level_name(l_) for l_ in lv_ if l_ != own})), view.fn.params[0]["n"])
         unresolved = [k for k in ("cor", "def", "r", "x", "y", "vec", "fine", "coarse", "dst", "src", "a", "b") if k in ev and ev[k] is None]
         if ok is False and unresolved:
             ck.incomplete("E1.level-roles", "%s: %s: operand(s) %s could not be resolved to a level vector or parameter (line %s)" % (inst_prefix, desc, ", ".join(unresolved), ev["n"].get("l")))
@@ -1562,13 +1582,15 @@ def check_transfer_clone(ck, short, fns, inl):
         if mode_d is None:
             continue
         key = "%s::clone" % short
-        calls = [n for n in walk(f.body) if n.get("k") == "MCall" and n.get("n") in ("clone", "clone_mode") and mgmodel.is_this_member(view.value(n.get("obj") or {}))]
+        calls = [n for n in walk(f.body) if n.get("k") == "MCall" and n.get("n") == "clone" and (
+            mgmodel.is_this_member(view.value(n.get("obj") or {})) or (n.get("a") and mgmodel.is_this_member(view.value(n["a"][0]))))]
         if not calls:
             ck.incomplete(rule, "%s: no clone() call on a member found" % key)
             continue
         for n in calls:
-            mem = strip(view.value(n["obj"])).get("n")
-            args = [view.value(a) for a in n.get("a", [])]
+            src = view.value(n["obj"]) if mgmodel.is_this_member(view.value(n.get("obj") or {})) else view.value(n["a"][0])     # X.clone(mode) / t.X.clone(X, mode)
+            mem = strip(src).get("n")
+            args = [view.value(a) for a in n.get("a", []) if view.value(a) is not src]
             passes = any(a.get("k") == "Ref" and a.get("d") == mode_d for a in args)
             other = [render(a) for a in args if not (a.get("k") == "Ref" and a.get("d") == mode_d)]
             # a default argument shows up as the default value (an enumerator), not as the parameter
@@ -1628,6 +1650,31 @@ def check_transfer_buffer(ck, short, fns, inl, used_methods):
                     buf, "/".join(sorted(used_methods))), f.file, f.line)
             continue
         esc = view.flow_from(None, stop={n["i"] for n in writes})[1]
+        if esc:
+            # `if(buf.size() != <size taken from the current operator>) buf = ...;` re-creates the buffer whenever it does not
+            # fit: the skipped path leaves a buffer of the right size (its content is scratch, every use overwrites it)
+            fits = []
+            for w in writes:
+                q = view.parent.get(w.get("i"))
+                child = w
+                while q is not None:
+                    if q.get("k") == "If" and q.get("then") is not None and child.get("i") in {x.get("i") for x in walk(q["then"])} and q.get("else") is None:
+                        c = view.value(q.get("c") or {})
+                        neg = False
+                        while c.get("k") == "Un" and c.get("op") == "!":
+                            neg = not neg
+                            c = view.value(c["e"])
+                        if c.get("k") == "Bin" and ((c.get("op") == "!=" and not neg) or (c.get("op") == "==" and neg)):
+                            for x, y in ((c["lhs"], c["rhs"]), (c["rhs"], c["lhs"])):
+                                xv, yv = view.value(x), view.value(y)
+                                if xv.get("k") == "MCall" and xv.get("n") == "size" and mgmodel.is_this_member(view.value(xv.get("obj") or {}), buf) and \
+                                        any(mgmodel.is_this_member(z) and z.get("n") != buf for z in walk(yv) if z.get("k") == "Member"):
+                                    fits.append(q)
+                    child, q = q, view.parent.get(q.get("i"))
+            if fits:
+                f2 = norm_c08.without_skip_edges(f, view, {q["i"] for q in fits})
+                v2 = FnView(f2)
+                esc = v2.flow_from(None, stop={n["i"] for n in writes})[1]
         ck.ob(rule, key, not esc,
               "%s is (re)created on every path through compile()" % buf if not esc else
               "%s is (re)created only on some paths of compile() (line %s is conditional): a transfer that is compiled again after its matrices were replaced keeps the buffer of the first coarse dimension, and the muxer branches of %s work on a vector of the wrong size" % (
@@ -1796,7 +1843,8 @@ def run(tier):
         ck.incomplete("E14.cycle-shape", "driver TU tu/c09_multigrid.cpp does not compile: %s:%d %s" % (e["file"], e["line"], e["msg"]))
     classes = mg_functions(facts, r"^FEAT::Solver::MultiGrid<")
     inl = norm_c08.Inliner(facts)
-    not_modelled = lambda call, cal: (cal.name not in mgmodel.HELPERS or len(cal.params) != mgmodel.HELPER_ARITY[cal.name]) and cal.name not in ("apply", "name")
+    modelled_decls = {f.d.get("decl") for fns_ in classes.values() for n_, f in fns_.items() if n_ in mgmodel.HELPERS}
+    not_modelled = lambda call, cal: (cal.name not in mgmodel.HELPERS or cal.d.get("decl") not in modelled_decls) and cal.name not in ("apply", "name")
     if not classes:
         ck.incomplete("E14.cycle-shape", "no instantiation of Solver::MultiGrid found")
     need = list(CYCLES) + ["_apply_rest", "_apply_prol", "_apply_smooth_peak", "_apply_smooth_def", "_apply_coarse", "apply"]
